@@ -113,3 +113,34 @@ Qed.
 Lemma amplitudes_small :
   2 * 0.75 < 29.530588861 /\ 2 * 3.2 < 27.55454989 /\ 2 * 0.8 < 27.212220817 /\ 2 * 2.0 < 27.321582247.
 Proof. lra. Qed.
+
+(* ---- results given as "linear mean instant + bounded deviation" on a range of indices ----
+   r n = J0 + B (n + off) + dev n  with |dev n| <= C for every index n in the range P
+   (P: the epoch argument stays in the window where the amplitude bound was computed). *)
+Section LinearMean.
+  Variables (J0 B off C : R) (r : Z -> R) (P : Z -> Prop).
+  Hypothesis Hdev : forall n, P n -> Rabs (r n - (J0 + B * (IZR n + off))) <= C.
+  Hypothesis HC : 2 * C < B.
+
+  Lemma lin_step n : P n -> P (n + 1)%Z ->
+    r n < r (n + 1)%Z /\ Rabs (r (n + 1)%Z - r n - B) <= 2 * C.
+  Proof.
+    intros H1 H2. pose proof (abs_le_inv _ _ (Hdev n H1)) as E1.
+    pose proof (abs_le_inv _ _ (Hdev _ H2)) as E2. rewrite plus_IZR in E2.
+    split; [lra | apply abs_le; lra].
+  Qed.
+
+  Lemma lin_order n1 n2 : P n1 -> P n2 -> (n1 < n2)%Z -> r n1 + (B - 2 * C) <= r n2.
+  Proof.
+    intros H1 H2 Hlt. pose proof (abs_le_inv _ _ (Hdev n1 H1)) as E1.
+    pose proof (abs_le_inv _ _ (Hdev n2 H2)) as E2.
+    assert (Hd : 1 <= IZR n2 - IZR n1) by (rewrite <- minus_IZR; apply IZR_le; lia).
+    assert (B <= B * (IZR n2 - IZR n1)) by nra. lra.
+  Qed.
+
+  Lemma lin_monotone n1 n2 : P n1 -> P n2 -> (n1 <= n2)%Z -> r n1 <= r n2.
+  Proof.
+    intros H1 H2 Hle. destruct (Z.eq_dec n1 n2) as [-> | N]; [lra |].
+    pose proof (lin_order n1 n2 H1 H2 ltac:(lia)). lra.
+  Qed.
+End LinearMean.
